@@ -224,6 +224,7 @@ func (s *Service) GetPipes() []Pipe {
 		})
 		copy(res[idx+1:], res[idx:])
 		res[idx] = pp.cfg
+		cnt++
 	}
 	s.lock.Unlock()
 	return res
